@@ -177,15 +177,17 @@ def _report(run, viols):
             run.violation(k, what, rp)
     # soundness rule 5: re-run not-yet-known violations from their artefacts before printing them
     for k, v, what, rp in unknown[:40]:
-        if not _rerun(run, rp, quiet=True):
+        if not _rerun(run, rp, quiet=True, rec={"instance": {"S": v["S"], "T": v["T"], "N": v["N"], "D": v["D"]},
+                                                 "value": v["xbits"] if m.is_fp(v["S"]) else v["x"],
+                                                 "violation_kind": v["kind"]}):
             raise core.InfraError("C05: violation %s did not reproduce from its replay artefact %s" % (k, rp))
     for k, v, what, rp in unknown:
         run.violation(k, what, rp)
     return len(bykey)
 
 
-def _rerun(run, path, quiet=False):
-    r = json.load(open(path))
+def _rerun(run, path, quiet=False, rec=None):
+    r = rec if rec is not None else json.load(open(path))
     i = r["instance"]
     s, t, n, d = i["S"], i["T"], int(i["N"]), int(i["D"])
     insts = {0: (s, t, m.common(s, t), n, d)}
@@ -207,6 +209,7 @@ def _rerun(run, path, quiet=False):
 
 def check(run):
     tier = run.tier
+    m.selfcheck()
     gcfg, ccfg = core.GXX14, core.CLANG14
     # quick: compile time dominates (0.1 s of template instantiation per instance and build) -> -O0
     gopt, copt = ("-O0", "-O0") if tier == "quick" else ("-O2", "-O2")
